@@ -802,10 +802,13 @@ class C14(PropOracle):
 
     def on_canceled(self, w, vp, d):
         s = read_json(w.rootp + "job_status.json") or {}
-        self.ids_at_cancel = tuple(s.get("hpc_job_ids", []))
-        self.rows_at_cancel = {k: tuple(v) for k, v in disk_rows(w).items()}
         asked = {x[1] for x in w.obs.scancel_log}
-        miss = [i for i in self.ids_at_cancel if i not in asked]
+        # every batch that is active: JADE's own list and the scheduler's ground truth (a batch that is still
+        # pending/running although JADE forgot its id was not asked to be canceled either)
+        truth = [b.id for b in w.sim.batches.values() if b.state in ("PENDING", "RUNNING")]
+        self.ids_at_cancel = tuple(sorted(set(s.get("hpc_job_ids", [])) | set(truth)))
+        self.rows_at_cancel = {k: tuple(v) for k, v in disk_rows(w).items()}
+        miss = [i for i in self.ids_at_cancel if i not in asked and not w.data.get("faulty_non_squeue")]
         if miss:
             self.v(w, f"submission marked canceled but active batches {miss} were not asked to be canceled "
                       f"(scancel issued for {sorted(asked)})", "active-batch-not-cancelled")
@@ -1012,6 +1015,18 @@ class C13(PropOracle):
         if rec["complete"]:
             res = read_json(w.rootp + "results.json") or {}
             cls = {r["name"]: classify(r["return_code"], r["status"]) for r in res.get("results", [])}
+            # the flags select by what the jobs actually did: the outcomes recorded in the results files
+            # (on a correctly completed submission the summary in results.json says the same)
+            truth = {}
+            for n_, rr_ in rec["allrows"].items():
+                try:
+                    truth[n_] = classify(rr_[-1][0], rr_[-1][1])
+                except (TypeError, ValueError):
+                    truth = None
+                    break
+            if truth is not None and truth != cls:
+                rec["summary_differs"] = (dict(cls), dict(truth))
+                cls = truth
             names = [j["name"] for j in w.scen["jobs"]]
             sel = set()
             if flags["failed"]:
@@ -1061,7 +1076,7 @@ class C13(PropOracle):
                 c = read_json(w.rootp + "cluster_config.json") or {}
                 if c.get("is_complete") and full_rows(w) == a["rows"]:
                     a["aborted"] = True  # gave up before changing anything (e.g. somebody else is submitter)
-                    if a["idle"]:
+                    if a["idle"] and not any(f[0] == vp.name for f in (w.data.get("faults") or [])):
                         self.v(w, f"resubmit-jobs failed with {a['code']} on a complete submission on which nothing else was running "
                                   f"(submitter on disk: {a['cluster'].get('submitter')!r})", "resubmit-failed-on-idle-complete")
 
@@ -1409,6 +1424,16 @@ class C11(PropOracle):
             lost = seen - have
             if lost:
                 self.v(w, f"result {sorted(lost)} of job {n} was on disk earlier and is gone at the end (faults: {w.data.get('faults')})", "result-lost")
+        c_ = w.obs.cluster or {}
+        if c_.get("is_complete"):
+            res_ = read_json(w.rootp + "results.json")
+            names_ = {j["name"] for j in w.scen["jobs"]}
+            if res_ is None:
+                self.v(w, f"the submission is marked complete but there is no readable results.json (faults: {w.data.get('faults')}); "
+                          "later invocations answer 'already finished'", "complete-without-summary")
+            elif {r["name"] for r in res_.get("results", [])} | set(res_.get("missing_jobs", [])) != names_:
+                self.v(w, f"the submission is marked complete but results.json accounts for "
+                          f"{sorted({r['name'] for r in res_.get('results', [])} | set(res_.get('missing_jobs', [])))} of {sorted(names_)}", "complete-with-partial-summary")
         faults = w.data.get("faults") or []
         if faults and all(f[1].startswith("cmd:squeue") and f[2] == "fail-all" for f in faults):
             # a transient status-query failure: the run must end exactly as the fault-free one
